@@ -41,16 +41,27 @@ def fit(a):
     """a = {'algo', 'opts', 'm': matrix spec, 'force_bipartite'}; every dendrogram attribute after fit."""
     est = _mk(a['algo'], a.get('opts', {}))
     m = mk_matrix(a['m'])
+    # earlier fits of the SAME estimator object on other graphs (bipartite and not): nothing of them may survive
+    for spec in a.get('prior') or []:
+        try:
+            est.fit(mk_matrix(spec), force_bipartite=bool(spec.get('force_bipartite', False)))
+        except Exception:  # noqa
+            pass
     est.fit(m, force_bipartite=a.get('force_bipartite', False))
     return _attrs(est)
+
+
+PRIOR = [dict(shape=[2, 3], coo=[[0, 0, 1], [0, 1, 2], [1, 1, 1], [1, 2, 3]], dtype='int', fmt='csr'),
+         dict(shape=[4, 4], coo=[[0, 1, 1], [1, 0, 1], [1, 2, 2], [2, 1, 2], [2, 3, 1], [3, 2, 1]], dtype='int', fmt='csr'),
+         dict(shape=[3, 3], coo=[[0, 0, 1], [0, 1, 1], [1, 1, 2], [2, 1, 1], [2, 2, 1]], dtype='int', fmt='csr', force_bipartite=True)]
 
 
 def fit_many(a):
     """Several option sets on one matrix: a = {'algo', 'm', 'runs': [opts, ...]}."""
     out = []
-    for opts in a['runs']:
+    for k, opts in enumerate(a['runs']):
         try:
-            out.append({'ok': fit({'algo': a['algo'], 'opts': opts, 'm': a['m'],
+            out.append({'ok': fit({'algo': a['algo'], 'opts': opts, 'm': a['m'], 'prior': PRIOR[:1 + k % 3] if k % 2 == 1 else [],
                                    'force_bipartite': a.get('force_bipartite', False)})})
         except Exception as e:  # noqa
             out.append({'err': type(e).__name__, 'msg': str(e)[:200]})
